@@ -158,6 +158,17 @@ func parseOpts(s string) []rs.Option {
 
 // famOpts returns the options selecting a code family.
 func famOpts(fam string, d, p int) ([]rs.Option, error) {
+	if strings.Contains(fam, "+") { // a+b+c: the matrix options in this order (each one resets the others: the last wins)
+		var all []rs.Option
+		for _, part := range strings.Split(fam, "+") {
+			o, err := famOpts(part, d, p)
+			if err != nil {
+				return nil, err
+			}
+			all = append(all, o...)
+		}
+		return all, nil
+	}
 	switch fam {
 	case "default":
 		return nil, nil
@@ -182,6 +193,19 @@ func famOpts(fam string, d, p int) ([]rs.Option, error) {
 		m := make([][]byte, p)
 		for i := range m {
 			m[i] = fill(seed, 1000+i, d)
+		}
+		return []rs.Option{rs.WithCustomMatrix(m)}, nil
+	}
+	if strings.HasPrefix(fam, "sparse:") { // sparse:<seed> — a custom matrix with about half of its coefficients zero (LRC style)
+		seed := atou(fam[7:])
+		m := make([][]byte, p)
+		for i := range m {
+			m[i] = fill(seed, 1000+i, d)
+			for j := range m[i] {
+				if m[i][j] < 128 {
+					m[i][j] = 0
+				}
+			}
 		}
 		return []rs.Option{rs.WithCustomMatrix(m)}, nil
 	}
